@@ -29,8 +29,11 @@ def atoms(cond, truth):
             return []
         return [(c, "!=" if truth else "==", ["n", 0, ""])]
     if c[0] == "a":
-        # (x = e) used as a condition: fact about x
-        return [(strip(c[2]), "!=" if truth else "==", ["n", 0, ""])]
+        # (x = e) used as a condition: fact about x, and (for plain assignment) about e itself
+        out = [(strip(c[2]), "!=" if truth else "==", ["n", 0, ""])]
+        if c[1] == "=":
+            out += atoms(c[3], truth)
+        return out
     if c[0] == "n":
         return []
     return [(c, "!=" if truth else "==", ["n", 0, ""])]
